@@ -7,7 +7,11 @@ RULE = ("a real Directory on a directory-host Discovery plus 2-3 real Discovery 
         "computations exchange their real messages through the pool (any per-channel-FIFO delivery order); histories of "
         "up to 12 API operations (register/unregister agent, computation, replica; subscribe/unsubscribe agent, "
         "computation, replica with/without callbacks, one-shot or not; subscribe_all_agents) restricted to valid API use by "
-        "a small reference model and interleaved with deliveries at random; after a full drain: (1) the directory equals "
+        "a small reference model (agents hosting nothing and subscribed to nothing may leave and come back with a new address, a computation may be "
+        "registered by another instance once its owner has unregistered it, even while that un-publication is in flight) "
+        "and interleaved with deliveries at random; a quarter of the histories are scripted cores (replica subscription "
+        "racing with a re-registration, migration with and without replicas, agent re-joining) with random deliveries; "
+        "after a full drain: (1) the directory equals "
         "the ground truth obtained by folding the publish/unpublish messages in the order the directory handled them, "
         "(2) every instance's local view of each agent / computation / replica it is still subscribed to equals the "
         "directory's, (3) folding each callback's events gives the directory's final state for that item and one-shot "
@@ -41,6 +45,8 @@ class World:
         self.truth_agents = {}
         self.truth_comps = {}
         self.truth_replicas = {}
+        self.absent_at_sub = {}
+        self.ever_agents = set()
         self.pool.observers.append(self._observe)
         self.events = []  # callback events (cbid, event, item, value)
         self.model_sub = {a: {"agent": {}, "computation": {}, "replica": {}} for a in self.disc}
@@ -55,8 +61,17 @@ class World:
         if kind == "deliver" and data[1] == "_directory":
             msg = data[2]
             t = msg.type
+            if t == "subscribe_agent" and msg.subscribe:
+                # was the agent absent from the directory when this subscription was handled ? (the directory then
+                # answers nothing, and an address cached by the subscriber from an earlier subscription stays)
+                sub = data[0]
+                if msg.agent == "*":
+                    self.absent_at_sub[(sub, "*")] = {x for x in self.ever_agents if x not in self.truth_agents}
+                else:
+                    self.absent_at_sub[(sub, msg.agent)] = msg.agent not in self.truth_agents
             if t == "publish_agent":
                 self.truth_agents[msg.agents] = msg.address
+                self.ever_agents.add(msg.agents)
             elif t == "unpublish_agent":
                 if msg.agent in self.truth_agents:
                     self.truth_agents.pop(msg.agent)
@@ -65,12 +80,16 @@ class World:
             elif t == "publish_computation":
                 self.truth_comps[msg.computation] = msg.agent
             elif t == "unpublish_computation":
-                self.truth_comps.pop(msg.computation, None)
+                # an un-publication by a former host, handled after the computation has been registered on another
+                # agent (migration), must not remove the new registration
+                if msg.agent is None or self.truth_comps.get(msg.computation) == msg.agent:
+                    self.truth_comps.pop(msg.computation, None)
             elif t == "publish_replica":
                 s = self.truth_replicas.setdefault(msg.replica, set())
                 if msg.publish:
-                    if msg.replica in self.truth_comps:  # a replica of an unregistered computation is ignored
-                        s.add(msg.agent)
+                    # replica holders are recorded independently of the registration of the computation itself (it may
+                    # be momentarily unregistered while it migrates)
+                    s.add(msg.agent)
                 else:
                     s.discard(msg.agent)
 
@@ -97,15 +116,25 @@ def enabled_ops(w, rng):
     for a, d in w.disc.items():
         own = [c for c, h in d._computations_data.items() if h == a and not c.startswith("_")]
         # agents register themselves first (done by run_history, as Agent._on_start does) and only leave at the end
+        holds_replica = any(a in hs for hs in d._replicas_data.values())
         if w.phase == "end" and a in d._agents_data and not own and a not in w.left:
             ops.append(("unregister_agent", a))
+        elif w.phase != "end" and a not in w.left and not own and not holds_replica and rng.random() < 0.3 \
+                and not any(w.model_sub[a].values()) and a not in w.all_agents_sub:
+            # an agent hosting nothing, and which has cancelled its subscriptions, may leave in the middle of the history ...
+            ops.append(("unregister_agent", a))
         if a in w.left:
+            if w.phase != "end":
+                # ... and come back with a new address
+                w.rejoin_count = getattr(w, "rejoin_count", 0)
+                ops.append(("register_agent", a, "addr_%s_bis%d" % (a, w.rejoin_count)))
             continue
         for c in COMPS:
             host = d._computations_data.get(c)
-            # each computation has one owner for the whole history (an instance never subscribes to a computation
-            # it registers itself: subscriptions are for computations hosted elsewhere)
-            if host is None and w.owner.setdefault(c, a) == a and c not in subs_of(w, a):
+            # each computation has one owner at a time: once the owner has unregistered it, another instance may
+            # register it (migration) even while the un-publication is still in flight (an instance never subscribes
+            # to a computation it registers itself: subscriptions are for computations hosted elsewhere)
+            if host is None and w.owner.get(c, a) == a and c not in subs_of(w, a):
                 ops.append(("register_computation", a, c))
             if host == a:
                 ops.append(("unregister_computation", a, c))
@@ -139,15 +168,22 @@ def enabled_ops(w, rng):
 
 def apply_op(w, op):
     kind = op[0]
-    a = op[1]
-    d = w.disc[a]
-    subs = w.model_sub[a]
+    a = op[1] if len(op) > 1 else None
+    d = w.disc[a] if kind != "drain" else None
+    subs = w.model_sub[a] if kind != "drain" else None
 
     def run(fn):
         return w.pool.call(d.discovery_computation.name, fn)
 
+    if kind == "drain":
+        w.pool.run(w.pool.steps + 5000)
+        return True
     if kind == "register_agent":
-        run(lambda: d.register_agent(a, "addr_" + a))
+        addr = op[2] if len(op) > 2 else "addr_" + a
+        run(lambda: d.register_agent(a, addr))
+        if a in w.left:
+            w.left.discard(a)
+            w.rejoin_count = getattr(w, "rejoin_count", 0) + 1
     elif kind == "unregister_agent":
         run(lambda: d.unregister_agent(a))
         w.left.add(a)
@@ -155,10 +191,13 @@ def apply_op(w, op):
             subs[what].clear()
         w.all_agents_sub.pop(a, None)
     elif kind == "register_computation":
-        run(lambda: d.register_computation(op[2], a, "addr_" + a))
+        run(lambda: d.register_computation(op[2], a, d._agents_data.get(a, "addr_" + a)))
+        w.owner[op[2]] = a
     elif kind == "unregister_computation":
         run(lambda: d.unregister_computation(op[2], a))
         subs["computation"].pop(op[2], None)  # unregister_computation(publish) unsubscribes the host
+        if w.owner.get(op[2]) == a:
+            w.owner.pop(op[2])
     elif kind == "register_replica":
         run(lambda: d.register_replica(op[2], a))
     elif kind == "unregister_replica":
@@ -184,6 +223,9 @@ def apply_op(w, op):
         st = subs[what].get(item)
         if st is None:
             return False
+        # one-shot callbacks that already fired have been dropped by the discovery itself
+        for c in [c for c in st if w.cbs[c]["one_shot"] and any(e[0] == c for e in w.events)]:
+            st.remove(c)
         if cid is None:
             run(lambda: fn(item))
             subs[what].pop(item, None)
@@ -191,16 +233,10 @@ def apply_op(w, op):
             if cid not in st:
                 return False
             cbfn = w.cbs[cid]["fn"]
-            # a one-shot callback that already fired has been dropped by the discovery itself
-            fired = any(e[0] == cid for e in w.events)
-            if w.cbs[cid]["one_shot"] and fired:
-                st.remove(cid)
-                if not st:
-                    return False
-                return False
             run(lambda: fn(item, cbfn))
             st.remove(cid)
             if not st:
+                # no callback left: the discovery cancels the subscription at the directory
                 subs[what].pop(item, None)
     elif kind == "subscribe_all_agents":
         if op[2]:
@@ -236,6 +272,8 @@ def run_history(seed, nagents, nops, choices=None, ops_script=None):
             op = tuple(ops_script[done])
         else:
             ops = enabled_ops(w, rng)
+            if not ops:
+                break  # every instance has left
             op = rng.choice(ops)
         n_err = len(w.pool.errors)
         ok = apply_op(w, op)
@@ -250,6 +288,41 @@ def run_history(seed, nagents, nops, choices=None, ops_script=None):
     # drain
     w.pool.run(w.pool.steps + 5000)
     return w, script
+
+
+def skeleton(rng):
+    """scripted cores of histories that random generation reaches too rarely (each op is valid use; deliveries between
+    the ops are random, ("drain",) forces quiescence): subscriptions racing with an owner change / re-registration"""
+    a, b, c3 = rng.sample(AGENTS, 3)
+    c = rng.choice(COMPS)
+    cb, one = rng.random() < 0.7, False
+    kind = rng.choice(["replica-sub-during-reregistration", "migration", "agent-rejoins", "migration-with-replicas"])
+    if kind == "replica-sub-during-reregistration":
+        ops = [("register_computation", a, c), ("subscribe_computation", b, c, False, False), ("subscribe_computation", c3, c, False, False),
+               ("drain",), ("unregister_computation", a, c), ("subscribe_replica", b, c, cb, one), ("register_computation", a, c)]
+        if rng.random() < 0.5:
+            ops.insert(5, ops.pop(6))  # re-registration requested before the replica subscription
+        ops += [("drain",), ("register_replica", c3, c), ("drain",)]
+    elif kind == "migration":
+        ops = [("register_computation", a, c), ("subscribe_computation", b, c, cb, one)]
+        if rng.random() < 0.5:
+            ops.append(("drain",))
+        ops += [("unregister_computation", a, c), ("register_computation", c3, c), ("drain",)]
+        if rng.random() < 0.5:
+            ops += [("unregister_computation", c3, c), ("register_computation", a, c), ("drain",)]
+    elif kind == "migration-with-replicas":
+        ops = [("register_computation", a, c), ("subscribe_computation", b, c, False, False), ("drain",), ("register_replica", b, c),
+               ("subscribe_replica", b, c, cb, one), ("unregister_computation", a, c), ("register_computation", c3, c), ("drain",)]
+    else:
+        ops = [("subscribe_agent", a, b, cb, one)]
+        if rng.random() < 0.5:
+            ops.append(("subscribe_all_agents", c3, rng.random() < 0.5))
+        if rng.random() < 0.5:
+            ops.append(("drain",))
+        ops += [("unregister_agent", b), ("register_agent", b, "addr_%s_bis" % b), ("drain",)]
+        if rng.random() < 0.4:
+            ops += [("unregister_agent", b), ("register_agent", b, "addr_%s_ter" % b), ("drain",)]
+    return kind, [list(o) for o in ops]
 
 
 def check_world(w, script):
@@ -287,7 +360,11 @@ def check_world(w, script):
             except UnknownAgent:
                 got = None
             if got != want:
-                P.append(("view:agent", "%s is subscribed to agent %s: local address %r, directory %r" % (a, b, got, want)))
+                key = "view:agent"
+                if want is None and got is not None and w.absent_at_sub.get(("_discovery_" + a, b)) is True:
+                    # known protocol limitation, see KNOWN_FINDINGS.json
+                    key = "view:stale-address-of-agent-already-unregistered-when-the-subscription-was-handled"
+                P.append((key, "%s is subscribed to agent %s: local address %r, directory %r" % (a, b, got, want)))
         if a in w.all_agents_sub:
             for b in AGENTS:
                 want = w.truth_agents.get(b)
@@ -296,7 +373,10 @@ def check_world(w, script):
                 except UnknownAgent:
                     got = None
                 if b != a and got != want:
-                    P.append(("view:all-agents", "%s subscribed to all agents: local address of %s %r, directory %r" % (a, b, got, want)))
+                    key = "view:all-agents"
+                    if want is None and got is not None and b in (w.absent_at_sub.get(("_discovery_" + a, "*")) or ()):
+                        key = "view:stale-address-of-agent-already-unregistered-when-the-subscription-was-handled"
+                    P.append((key, "%s subscribed to all agents: local address of %s %r, directory %r" % (a, b, got, want)))
         for c in subs["computation"]:
             want = w.truth_comps.get(c)
             try:
@@ -305,7 +385,7 @@ def check_world(w, script):
                 got = None
             if got != want:
                 key = "view:computation"
-                if want is None and got is not None and any(op[0] == "unsubscribe_computation" and op[1] == a and op[2] == c for op in script):
+                if want is None and got is not None and any(op[0] == "unsubscribe_computation" and len(op) > 2 and op[1] == a and op[2] == c for op in script):
                     # known protocol limitation, see KNOWN_FINDINGS.json
                     key = "view:stale-host-after-unsubscribe-then-resubscribe-to-unregistered-computation"
                 P.append((key, "%s is subscribed to computation %s: local host %r, directory %r" % (a, c, got, want)))
@@ -334,7 +414,12 @@ def check_world(w, script):
             for e in evs:
                 state = e[3] if e[1] == "computation_added" else None
             if state != want and not (want is not None and not evs and w.disc[info["owner"]]._computations_data.get(info["item"]) == want):
-                P.append(("callback:computation-events-do-not-fold-to-directory-state",
+                key = "callback:computation-events-do-not-fold-to-directory-state"
+                if want is None and state is not None and any(
+                        op[0] == "unsubscribe_computation" and len(op) > 2 and op[1] == info["owner"] and op[2] == info["item"] for op in script):
+                    # same mechanism as the stale view (known protocol limitation, see KNOWN_FINDINGS.json)
+                    key = "view:stale-host-after-unsubscribe-then-resubscribe-to-unregistered-computation"
+                P.append((key,
                           "callback %s of %s on computation %s saw %r -> %r, directory says %r" % (cid, info["owner"], info["item"], [e[1:] for e in evs], state, want)))
         elif info["kind"] == "agent":
             want = w.truth_agents.get(info["item"])
@@ -342,7 +427,10 @@ def check_world(w, script):
             for e in evs:
                 state = e[3] if e[1] == "agent_added" else None
             if state != want and not (want is not None and not evs and w.disc[info["owner"]]._agents_data.get(info["item"]) == want):
-                P.append(("callback:agent-events-do-not-fold-to-directory-state",
+                key = "callback:agent-events-do-not-fold-to-directory-state"
+                if want is None and w.absent_at_sub.get(("_discovery_" + info["owner"], info["item"])) is True:
+                    key = "view:stale-address-of-agent-already-unregistered-when-the-subscription-was-handled"
+                P.append((key,
                           "callback %s of %s on agent %s saw %r -> %r, directory says %r" % (cid, info["owner"], info["item"], [e[1:] for e in evs], state, want)))
         elif info["kind"] == "replica" and info["item"] in w.truth_comps:
             want = w.truth_replicas.get(info["item"], set())
@@ -370,8 +458,15 @@ def worker(job):
         nagents = rng.randint(2, 3)
         nops = rng.randint(3, 12)
         hseed = (seed * 1000003 + i * 7) & 0x7FFFFFFF
+        skel = None
+        if i % 4 == 3:
+            skel, ops_script = skeleton(rng)
+            nagents = 3
         try:
-            w, script = run_history(hseed, nagents, nops)
+            if skel:
+                w, script = run_history(hseed, 3, len(ops_script), ops_script=ops_script)
+            else:
+                w, script = run_history(hseed, nagents, nops)
             P = check_world(w, script)
         except Exception as e:
             import traceback
@@ -380,9 +475,10 @@ def worker(job):
             R.violation("harness:exception", traceback.format_exc()[-800:], {"seed": hseed})
             continue
         kinds = {op[0] for op in script}
-        nontrivial = len({op[1] for op in script}) >= 2 and any(k.startswith("unregister") for k in kinds) and bool(w.cbs)
+        nontrivial = len({op[1] for op in script if len(op) > 1}) >= 2 and any(k.startswith("unregister") for k in kinds) and bool(w.cbs)
         R.case(common.stable_hash([script, w.pool.trace]), nontrivial,
                sample={"agents": nagents, "history": script, "deliveries": w.pool.delivered} if nontrivial and i % 60 == 0 else None)
+        R.bump("history_kinds", skel or "random")
         R.count("api_operations", len(script))
         R.count("discovery_messages_delivered", w.pool.delivered)
         R.count("callbacks_registered", len(w.cbs))
@@ -394,7 +490,7 @@ def worker(job):
             if k in seen:
                 continue
             seen.add(k)
-            R.violation(k, m, {"seed": hseed, "agents": nagents, "nops": nops, "history": script})
+            R.violation(k, m, {"seed": hseed, "agents": nagents, "nops": nops, "history": script, "scripted": ops_script if skel else None})
     return R
 
 
@@ -410,7 +506,10 @@ def main(chk, tier, seed):
 
 def replay(payload):
     w_ = payload["witness"]
-    w, script = run_history(w_["seed"], w_["agents"], w_["nops"])
+    if w_.get("scripted"):
+        w, script = run_history(w_["seed"], 3, len(w_["scripted"]), ops_script=w_["scripted"])
+    else:
+        w, script = run_history(w_["seed"], w_["agents"], w_["nops"])
     P = check_world(w, script)
     print("replay:", P[:3])
     if P:
